@@ -4,6 +4,7 @@ import (
 	"fmt"
 	"reflect"
 	"strings"
+	"time"
 
 	"verif/harness/core"
 	"verif/harness/explore"
@@ -265,6 +266,60 @@ func init() {
 					c.Cover("type:" + t.Name)
 				}})
 			}
+			// maps of three entries one of which is null on the wire (empty string, nil pointer, zero time, nil map,
+			// empty key), in every wire order of the entries, typed and untyped
+			us = append(us, core.Unit{Name: "map-entry-orders", Cost: 5, Run: func(c *core.Ctx) {
+				type MpStrTime struct {
+					M   map[string]time.Time
+					End int32
+				}
+				vals := []interface{}{
+					&zoo.MpStrStr{M: map[string]string{"a": "x", "b": "", "c": "y"}, End: 1},
+					&zoo.MpStrStr{M: map[string]string{"": "e", "b": "x", "c": ""}, End: 1},
+					&zoo.MpStrPInner{M: map[string]*zoo.Inner{"a": {A: 1}, "b": nil, "c": {A: 2}}, End: 1},
+					&zoo.MpStrMp{M: map[string]map[string]int32{"a": {"k": 1}, "b": nil, "c": {"k": 2}}, End: 1},
+					&zoo.MpStrI32{M: map[string]int32{"": 1, "a": 2, "b": 3}, End: 1},
+					&MpStrTime{M: map[string]time.Time{"a": zoo.RefTime, "b": {}, "c": zoo.RefTime.Add(time.Hour)}, End: 1},
+					zoo.NamedMap{"a": "x", "b": "", "c": "y"},
+					map[string]string{"a": "x", "b": "", "c": "y"},
+				}
+				perms := [][]int{{0, 1, 2}, {0, 2, 1}, {1, 0, 2}, {1, 2, 0}, {2, 0, 1}, {2, 1, 0}}
+				for vi, val := range vals {
+					tm, nm, _ := Maps(val)
+					for _, perm := range perms {
+						for _, pol := range []policyPick{{"canonical", nil}, {"untyped lists, typed maps", map[string]int{"list-untype": 1, "map-addtype": 1}}} {
+							if !c.Begin() {
+								continue
+							}
+							c.NontrivialN(1)
+							c.Res.States++
+							w := zoo.NewDenoter(nm).Denote(val)
+							m := w
+							if w.K == rh.Object {
+								m = w.Elems[0]
+							}
+							if m.K != rh.Map || len(m.Elems) != 6 {
+								c.Report(&core.Violation{Stage: "selfcheck", Kind: "harness", Shape: "map-entry-orders", Message: "denotation is not a three-entry map", Case: fmt.Sprint(vi)})
+								continue
+							}
+							old := append([]*rh.Value{}, m.Elems...)
+							for i, pi := range perm {
+								m.Elems[2*i], m.Elems[2*i+1] = old[2*pi], old[2*pi+1]
+							}
+							e := rh.NewEncoder(pol)
+							e.NoCompactDate = true
+							e.Top(w)
+							desc := fmt.Sprintf("%T value #%d with its three map entries in wire order %v, policy %s", val, vi, perm, pol.name)
+							if _, err := rh.ParseOne(e.Out); err != nil {
+								c.Report(&core.Violation{Stage: "selfcheck", Kind: "harness", Shape: "R1", Message: err.Error(), Case: desc})
+								continue
+							}
+							c.Outcome(decodeAgainst(c, e.Out, val, tm, nm, desc, "map-entry-orders", nil))
+						}
+					}
+				}
+				c.Cover("map-entry-orders")
+			}})
 			// large messages (sizes around the structural thresholds) under one whole-message encoding policy each
 			for pi, pol := range largePolicies {
 				pi, pol := pi, pol
@@ -298,7 +353,7 @@ func init() {
 			return us
 		},
 		RequireCover: func(string) []string {
-			l := []string{"large", "choice:int-form", "choice:long-form", "choice:double-form", "choice:date-form", "choice:str-split", "choice:str-final", "choice:bin-split", "choice:bin-final",
+			l := []string{"large", "map-entry-orders", "choice:hoist-order", "choice:int-form", "choice:long-form", "choice:double-form", "choice:date-form", "choice:str-split", "choice:str-final", "choice:bin-split", "choice:bin-final",
 				"choice:list-form", "choice:list-untype", "choice:map-addtype", "choice:type-backref", "choice:object-form", "choice:hoist-classdef"}
 			for _, t := range zoo.Types {
 				l = append(l, "type:"+t.Name)
